@@ -67,7 +67,7 @@ TasC(pre, f) == {pre.tas} \cup (IF IsCommB(f) THEN {<<Tas50(f)>>} ELSE {})
 HdgC(pre, f) == {pre.hdg} \cup (IF IsCommB(f) THEN {<<(90 * HdgU60(f)) \div 512>>} ELSE {})
 IasC(pre, f) == {pre.ias} \cup (IF IsCommB(f) THEN {<<Ias60(f)>>} ELSE {})
 MachC(pre, f) == {pre.mach} \cup (IF IsCommB(f) THEN {<<MachMilli60(f)>>} ELSE {})
-ThrC(pre, f) == {pre.thr} \cup (IF IsCommB(f) THEN {<<1>>} ELSE {})
+ThrC(pre, f) == {pre.thr} \cup (IF IsCommB(f) THEN {<<1>>, <<>>} ELSE {})
 
 \* For frames no property constrains (DF18, other formats) the model keeps the row as it is.
 NextRows(pre, f, ctx, x, t) ==
